@@ -795,7 +795,11 @@ func c19run(res *c19result, mu *sync.Mutex) {
 				// every printed group is the statistics of one recorded measure, each measure once
 				used := map[string]bool{}
 				if len(tuples) != len(keys) {
-					fail("string-shape", fmt.Sprintf("%d groups printed for %d measures: %q", len(tuples), len(keys), str))
+					kind := "string-shape"
+					if _, isB := e.bucketOf(sname); isB {
+						kind = "bucket-stats-mismatch" // a bucket that lacks (or has too many) measures
+					}
+					fail(kind, fmt.Sprintf("%q prints %d groups, %d measures were recorded for it (%v): %q", sname, len(tuples), len(keys), keys, str))
 				} else {
 					for _, f := range tuples {
 						found := false
